@@ -487,6 +487,18 @@ func registerIntrinsics(e *Engine) {
 		return reOf(a[0]).ReplaceAllString(s, mustStr(a[2], "ReplaceAllString repl"))
 	}
 	in["(*regexp.Regexp).MatchString"] = func(fr *frame, a []value) value {
+		if ss, isSym := a[1].(sstr); isSym {
+			// symbolic text: one condition for "matches" instead of one path per text (ASCII bound)
+			ps := fr.i.ps
+			for _, b := range ss.b {
+				if !b.IsConst() && !ps.decide(smt.BvCmp(smt.OpBvUlt, b, smt.BV(0x80, 8))) {
+					panic(pathEnd{"assume-false", "non-ASCII symbolic byte in a regular-expression match (outside the stated bound)"})
+				}
+			}
+			if cond, ok := symRegexMatch(reOf(a[0]), ss.b); ok {
+				return mkScalar(ps, cond, types.Bool)
+			}
+		}
 		return reOf(a[0]).MatchString(fr.i.ps.concretizeStr(a[1]))
 	}
 	in["(*regexp.Regexp).FindAllStringSubmatch"] = func(fr *frame, a []value) value {
